@@ -95,9 +95,6 @@ const poolUses = 256
 
 func newPool() *pool { return &pool{rts: map[string]*rt{}} }
 
-// Execute is execute in a fresh runtime, discarding the observation (timing aid).
-func Execute(src, cfg string) { execute(nil, src, cfg) }
-
 // execute runs src under one configuration, in a fresh runtime when p is nil.
 func execute(p *pool, src, cfg string) (o obs) {
 	var x *rt
